@@ -15,6 +15,7 @@
 (*   Recv(k)           enabled when the channel is non-empty: take head    *)
 (*   RecvNB(k)         head, or "empty" iff the channel is empty           *)
 (*   Disconnect(k)     open -= k, callback mode off                        *)
+(*   Reset             reset_socket_hub(): all channels empty, nobody open *)
 (***************************************************************************)
 EXTENDS Naturals, Sequences, FiniteSets
 
@@ -37,4 +38,6 @@ Send(k, m) == /\ chan' = IF SendOutcome(k) = "queued" THEN [chan EXCEPT ![Peer[k
 Recv(k) == chan[k] # << >> /\ chan' = [chan EXCEPT ![k] = Tail(@)] /\ UNCHANGED <<open, ever, cbmode>>
 RecvNBEmpty(k) == chan[k] = << >> /\ UNCHANGED avars
 Disconnect(k) == /\ open' = open \ {k} /\ cbmode' = cbmode \ {k} /\ UNCHANGED <<chan, ever>>
+(* the package's reset (between runs of a simulation): nothing of the past remains *)
+Reset == chan' = [k \in Keys |-> << >>] /\ open' = {} /\ ever' = {} /\ cbmode' = {}
 =============================================================================
